@@ -35,7 +35,8 @@ type xferOpts struct {
 	profile    transportProfile
 	noRecord   bool
 	kHash      int64 // prefix-hash block size knob (0 = leave)
-	tunnelFast bool  // tunnel links stay well inside the 1 s grace period (needed when -f depends on the tunnel)
+	serverMain func() int // replaces TrzMain/TszMain (custom in-package server)
+	tunnelFast bool       // tunnel links stay well inside the 1 s grace period (needed when -f depends on the tunnel)
 }
 
 type transportProfile struct {
@@ -387,6 +388,9 @@ func (x *xferWorld) launchServer() {
 	o := x.o
 	x.markUp, x.markDown = x.up[0].NSentInt(), x.downLast().NSentInt()
 	x.server.Start("server.main", func() int {
+		if o.serverMain != nil {
+			return o.serverMain()
+		}
 		if o.upload {
 			return TrzMain()
 		}
